@@ -5,7 +5,7 @@ EXPLANATION = ('TCP typed option setters/getters (mss, winscale, sack_permitted,
 BOUNDS = {'quick': 'one TCP object, 4 typed options / 2 on the wire, all values symbolic', 'thorough': 'same'}
 OUTSIDE = ('every other protocol\'s typed options (ICMPv6 ~30, DHCPv6 ~20, Dot11 management ~25, IP, DHCP, PPPoE tags, RTP), longer add/remove histories, options above the small-buffer threshold: not decided. Attempted and without verdict in 900 s: a TCP option of symbolic kind without data (the Fast Open shape of the C02 text) and IPv6 extension headers of 0..13 data bytes')
 ASSUMPTIONS = []
-FNS = ('h_c04_tcp_typed_getters', 'h_c04_tcp_wire', 'h_c04_tcp_sack_wire', 'h_c04_ip_wire', 'h_c04_icmpv6_wire', 'h_c04_dhcp_wire')
+FNS = ('h_c04_tcp_typed_getters', 'h_c04_tcp_wire', 'h_c04_tcp_sack_wire', 'h_c04_ip_wire', 'h_c04_icmpv6_wire', 'h_c04_dhcp_wire', 'h_c04_tcp_remove_order', 'h_c04_ip_security_wire', 'h_c04_ip_sid_only_wire')
 NRAND = {'quick': 50, 'thorough': 300}
 def units(tier):
     us = []
